@@ -638,7 +638,7 @@ Section StreamProof.
   Proof.
     destruct sh as [c d r rd rc pn].
     destruct x as [| | | | |act| | | |left|ok|]; intros Hop; try discriminate; try destruct left; cbn;
-      destruct fixed, d, c, r, rd; cbn; try destruct (0 <? rc); cbn; auto.
+      destruct fixed, d, c, r, rd; cbn; try destruct (0 <? rc); cbn; repeat split; reflexivity.
   Qed.
 
   Lemma cinv_step s i : CInv s -> CInv (sys_step _ _ (pstep fixed reads) s i).
